@@ -360,9 +360,18 @@ def z2_misc(F, R, M, roles):
                 ins = array_elems(S, S.operand(subs[0].id, subs[0].d['args'][1]))
                 outs = array_elems(S, S.operand(subs[0].id, subs[0].d['args'][2]))
                 good = (ins == [] or ins is None and 'promoted' in fmt(S.operand(subs[0].id, subs[0].d['args'][1]))) and outs is not None and len(outs) == 1
-                rv = [S.local_value(r_, 0, 0) for r_ in sg.exits]
-                good = good and any(derives_from(v, lambda x: x[0] == 'call' and x[1] == subs[0].id) for v in rv)
-            R.check(good, 'Z2', 'rng:shape', fn_site(F, b['id']), 'one device-writable buffer, returns the used length', 'entropy request shape/result wrong')
+            why = 'entropy request shape wrong'
+            if good:
+                okp = [p for p in PathEnum(sg).run() if not p.panicked and err_variant(p.ret) == 'Ok']
+                good = bool(okp)
+                for p in okp:
+                    val = p.ret[2][0] if (p.ret[0] == 'agg' and p.ret[2]) else None
+                    from_dev = val is not None and derives_from(val, lambda x: x[0] == 'call' and x[1] == subs[0].id)
+                    from_len = val is not None and derives_from(val, lambda x: x[0] == 'call' and x[2].endswith('::len'))
+                    if not from_dev or from_len:
+                        good = False
+                        why = 'the returned entropy length is %s, not the used length the device reported: a short read would be reported as a full buffer' % fmt(val)[:80]
+            R.check(good, 'Z2', 'rng:shape', fn_site(F, b['id']), 'one device-writable buffer, returns the used length the device reported', why)
 
 
 def z5_pcm(F, R, M, roles):
